@@ -22,61 +22,9 @@ const lruPkg = "github.com/hashicorp/golang-lru"
 
 func runC11(c *eng.Ctx) {
 	p := c.P
-	isCacheAdd := func(in ssa.Instruction) bool {
-		ci, ok := in.(ssa.CallInstruction)
-		return ok && strings.HasSuffix(eng.CalleeRef(ci.Common()), ".Cache.Add") && strings.HasPrefix(eng.CalleeRef(ci.Common()), lruPkg)
-	}
-
 	// ---- R11.1
 	c.Rule("R11.1", "K1")
-	if fn := c.Fn("server.(*cursorManager).SetCursor"); fn != nil {
-		pubs := eng.CallsIn(fn, "server.apiServer.Publish")
-		if len(pubs) != 1 {
-			c.Unresolved("api.Publish call in SetCursor")
-		} else {
-			pc := pubs[0].(*ssa.Call)
-			pol := ""
-			if al, ok := pc.Call.Args[2].(*ssa.Alloc); ok {
-				for _, r := range *al.Referrers() {
-					if fa, ok := r.(*ssa.FieldAddr); ok && eng.FieldNameOf(fa) == "AckPolicy" {
-						for _, rr := range *fa.Referrers() {
-							if st, ok := rr.(*ssa.Store); ok {
-								if k, ok := st.Val.(*ssa.Const); ok {
-									pol = eng.EnumName(k)
-								}
-							}
-						}
-					}
-				}
-			}
-			c.Check(pol == "AckPolicy_ALL", "cursor publish waits for the full ISR", c.Pos(pc), "AckPolicy: AckPolicy_ALL (constant)", "the cursor is published with ack policy "+pol+": SetCursor can report success before the cursor is committed")
-			errNil := eng.CmpEdges(fn, func(v ssa.Value) bool { e, ok := v.(*ssa.Extract); return ok && e.Tuple == pc && e.Index == 1 }, eng.NilConst, eng.EQ)
-			errNil = append(errNil, cellEdgesIdx(fn, pc, 1)...)
-			la := eng.LocksOf(p, fn, 0)
-			n := 0
-			eng.Instrs(fn, func(in ssa.Instruction) {
-				if !isCacheAdd(in) {
-					return
-				}
-				n++
-				g, w := eng.GuardedBy(fn, in, errNil)
-				c.Check(g && len(errNil) > 0, "cache updated only after a successful publish", c.Pos(in), "cache.Add is reached only over err == nil of api.Publish", "the cache is updated although the publish failed (path "+w.String()+"): a later fetch returns a cursor that was never stored")
-				held := lockHeld(la.At(in), ".mu", 2) && lockHeld(la.At(pc), ".mu", 2)
-				c.Check(held, "publish and cache update in one critical section", c.Pos(in), "c.mu write-held at both", "publish and cache update are not inside one c.mu critical section: two SetCursor calls can order differently in the log and in the cache")
-				// the cached value is the offset that was published
-				call := in.(ssa.CallInstruction).Common()
-				val := call.Args[len(call.Args)-1]
-				okVal := false
-				if mi, ok := val.(*ssa.MakeInterface); ok {
-					okVal = eng.LoadNamed("Offset", nil)(mi.X) || eng.Param("offset")(mi.X)
-				}
-				c.Check(okVal, "cached value is the stored offset", c.Pos(in), "cache.Add(key, cursor.Offset)", "the cached value is not the offset that was published")
-			})
-			if n == 0 {
-				c.Violate("cache updated after publish", p.Pos(fn.Pos()), "SetCursor no longer updates the cache: a cached older value would be served after a successful SetCursor")
-			}
-		}
-	}
+	ruleCursorPublishThenCache(c)
 	c.Floor(4)
 
 	// ---- R11.2
@@ -286,4 +234,63 @@ func cellEdgesIdx(fn *ssa.Function, call *ssa.Call, idx int) []eng.Edge {
 		}
 	}
 	return out
+}
+
+// ruleCursorPublishThenCache (R11.1, shared with C15): SetCursor publishes with AckPolicy ALL and touches the cache only
+// after that publish succeeded, inside one critical section. For C15 the publish is the second authorisation step (Publish
+// on the cursors stream): a refused publish must leave no cursor behind.
+func ruleCursorPublishThenCache(c *eng.Ctx) {
+	p := c.P
+	isCacheAdd := func(in ssa.Instruction) bool {
+		ci, ok := in.(ssa.CallInstruction)
+		return ok && strings.HasSuffix(eng.CalleeRef(ci.Common()), ".Cache.Add") && strings.HasPrefix(eng.CalleeRef(ci.Common()), lruPkg)
+	}
+	if fn := c.Fn("server.(*cursorManager).SetCursor"); fn != nil {
+		pubs := eng.CallsIn(fn, "server.apiServer.Publish")
+		if len(pubs) != 1 {
+			c.Unresolved("api.Publish call in SetCursor")
+		} else {
+			pc := pubs[0].(*ssa.Call)
+			pol := ""
+			if al, ok := pc.Call.Args[2].(*ssa.Alloc); ok {
+				for _, r := range *al.Referrers() {
+					if fa, ok := r.(*ssa.FieldAddr); ok && eng.FieldNameOf(fa) == "AckPolicy" {
+						for _, rr := range *fa.Referrers() {
+							if st, ok := rr.(*ssa.Store); ok {
+								if k, ok := st.Val.(*ssa.Const); ok {
+									pol = eng.EnumName(k)
+								}
+							}
+						}
+					}
+				}
+			}
+			c.Check(pol == "AckPolicy_ALL", "cursor publish waits for the full ISR", c.Pos(pc), "AckPolicy: AckPolicy_ALL (constant)", "the cursor is published with ack policy "+pol+": SetCursor can report success before the cursor is committed")
+			errNil := eng.CmpEdges(fn, func(v ssa.Value) bool { e, ok := v.(*ssa.Extract); return ok && e.Tuple == pc && e.Index == 1 }, eng.NilConst, eng.EQ)
+			errNil = append(errNil, cellEdgesIdx(fn, pc, 1)...)
+			la := eng.LocksOf(p, fn, 0)
+			n := 0
+			eng.Instrs(fn, func(in ssa.Instruction) {
+				if !isCacheAdd(in) {
+					return
+				}
+				n++
+				g, w := eng.GuardedBy(fn, in, errNil)
+				c.Check(g && len(errNil) > 0, "cache updated only after a successful publish", c.Pos(in), "cache.Add is reached only over err == nil of api.Publish", "the cache is updated although the publish failed (path "+w.String()+"): a later fetch returns a cursor that was never stored")
+				held := lockHeld(la.At(in), ".mu", 2) && lockHeld(la.At(pc), ".mu", 2)
+				c.Check(held, "publish and cache update in one critical section", c.Pos(in), "c.mu write-held at both", "publish and cache update are not inside one c.mu critical section: two SetCursor calls can order differently in the log and in the cache")
+				// the cached value is the offset that was published
+				call := in.(ssa.CallInstruction).Common()
+				val := call.Args[len(call.Args)-1]
+				okVal := false
+				if mi, ok := val.(*ssa.MakeInterface); ok {
+					okVal = eng.LoadNamed("Offset", nil)(mi.X) || eng.Param("offset")(mi.X)
+				}
+				c.Check(okVal, "cached value is the stored offset", c.Pos(in), "cache.Add(key, cursor.Offset)", "the cached value is not the offset that was published")
+			})
+			if n == 0 {
+				c.Violate("cache updated after publish", p.Pos(fn.Pos()), "SetCursor no longer updates the cache: a cached older value would be served after a successful SetCursor")
+			}
+		}
+	}
 }
